@@ -1628,7 +1628,11 @@ func (md *mapdet) totalOrder1(info *types.Info, call *ast.CallExpr, obj types.Ob
 			switch x := side.(type) {
 			case *ast.SelectorExpr:
 				if isElemOrAlias(x.X) {
-					fields[x.Sel.Name] = true
+					// a field orders the elements only through an order comparison; the equality
+					// test of `if a.f != b.f { return a.f < b.f }` alone decides nothing
+					if be.Op != token.NEQ && be.Op != token.EQL {
+						fields[x.Sel.Name] = true
+					}
 				} else {
 					usesOther = true
 				}
